@@ -1601,6 +1601,10 @@ class Data(BaseCartesianData):
             if cname in old_labels & new_labels:
                 comp_old = self.get_component(cname)
                 comp_new = data.get_component(cname)
+                if isinstance(comp_old, CoordinateComponent):
+                    # pixel and world coordinates are computed from the dataset
+                    # they belong to, which stays this one
+                    continue
                 comp_old._data = comp_new._data
 
         # Add components that didn't exist in original one. As above, we try
